@@ -18,7 +18,7 @@ Line-protocol driver for C10.  Sections of a line are separated by " | ", tokens
   fb     : one string, char k = behaviour of the function on the task whose first file is k:
            v = return the rendering of its arguments, n = return None, r = raise;
            the single token "P" = the function is `_pseudo_passer` (collect / icollect)
-  perm   : wished completion order (task indices)
+  perm   : wished completion order (task indices), "-" when empty
 -/
 open Pool
 
@@ -114,7 +114,7 @@ def parseCase (secs : List String) : Option Case := do
       let cfg ← parseCfg c
       let files ← (toks f).mapM parseFile
       let rtab ← (toks r).mapM parseRead
-      let perm ← (toks p).mapM String.toNat?
+      let perm ← ((toks p).filter (· ≠ "-")).mapM String.toNat?
       let rd : Reader := fun i =>
         match rtab[i]? with
         | some (.error _) => .error (.readError i)
